@@ -226,6 +226,11 @@ pub fn run_prop(a: &Args, prop: &str, pnum: u64) {
         };
         let g = if rng.chance(1, 2) { with_expect(&g0, &mut rng) } else { g0 };
         let eoc = !rng.chance(1, 8);
+        if case % 10 == 7 {
+            let t = grammar::with_many_tokens(&g.render(), &mut rng);
+            emit(&mut out, &dir, &t, eoc, "random_many_tokens", prop);
+            continue;
+        }
         emit(&mut out, &dir, &g.render(), eoc, "random", prop);
     }
     let _ = std::fs::remove_dir_all(&dir);
